@@ -863,17 +863,20 @@ func extractGlobals(repo, gen, facts string) {
 	configCalls := extractConfigCalls(pkgOrder)
 	listeners := extractListenerDiscipline(pkgOrder)
 	paramWrites := extractParamWrites(pkgOrder)
+	sliceGetters, resultAppends := extractSliceGetters(pkgOrder)
 	type fact struct {
-		Globals     []globalVar          `json:"globals"`
-		Closures    []closureRec         `json:"closures"`
-		Appends     []appendRow          `json:"appends"`
-		NodeWrites  []nodeWrite          `json:"nodeWrites"`
-		ConfigCalls []configCall         `json:"configCalls"`
-		Listeners   []listenerDiscipline `json:"listeners"`
-		ParamWrites []paramWrite         `json:"paramWrites"`
-		Notes       []string             `json:"notes,omitempty"`
+		Globals       []globalVar          `json:"globals"`
+		Closures      []closureRec         `json:"closures"`
+		Appends       []appendRow          `json:"appends"`
+		NodeWrites    []nodeWrite          `json:"nodeWrites"`
+		ConfigCalls   []configCall         `json:"configCalls"`
+		Listeners     []listenerDiscipline `json:"listeners"`
+		ParamWrites   []paramWrite         `json:"paramWrites"`
+		SliceGetters  []sliceGetter        `json:"sliceGetters"`
+		ResultAppends []resultAppend       `json:"resultAppends"`
+		Notes         []string             `json:"notes,omitempty"`
 	}
-	js, _ := json.MarshalIndent(fact{all, closures, appends, nodeWrites, configCalls, listeners, paramWrites, notes}, "", " ")
+	js, _ := json.MarshalIndent(fact{all, closures, appends, nodeWrites, configCalls, listeners, paramWrites, sliceGetters, resultAppends, notes}, "", " ")
 	writeIfChanged(filepath.Join(facts, "globals.json"), string(js)+"\n")
 
 	var b strings.Builder
@@ -955,6 +958,20 @@ func extractGlobals(repo, gen, facts string) {
 			b.WriteString(",\n")
 		}
 		fmt.Fprintf(&b, "  { pkg := %q, func := %q, param := %q, how := .%s, api := .%s }", w.Pkg, w.Func, w.Param, w.How, w.Api)
+	}
+	b.WriteString("]\n\ndef sliceGetters : List SliceGetter := [\n")
+	for i, g := range sliceGetters {
+		if i > 0 {
+			b.WriteString(",\n")
+		}
+		fmt.Fprintf(&b, "  { pkg := %q, func := %q, name := %q, returns := %q }", g.Pkg, g.Func, g.Name, g.Returns)
+	}
+	b.WriteString("]\n\ndef resultAppends : List ResultAppend := [\n")
+	for i, r := range resultAppends {
+		if i > 0 {
+			b.WriteString(",\n")
+		}
+		fmt.Fprintf(&b, "  { pkg := %q, func := %q, getter := %q, via := %q }", r.Pkg, r.Func, r.Getter, r.Via)
 	}
 	b.WriteString("]\nend StorageModel.Generated\n")
 	writeIfChanged(filepath.Join(gen, "Globals.lean"), b.String())
